@@ -15,6 +15,7 @@ var checks = map[string]func(*core.Ctx) int{
 	"C06": core.CheckC06,
 	"C07": core.CheckC07,
 	"C08": core.CheckC08,
+	"C09": core.CheckC09,
 	"C10": core.CheckC10,
 }
 
